@@ -111,6 +111,17 @@ def build_cases(ctx, nbases, flips_per_file, kinds=DAMAGE_KINDS):
                 plans.append(("bitflip", ctx.rng.randrange(0, 4096), ctx.rng.randrange(8)))
             if cls == "head":
                 plans.append(("badversion", None, None))
+            if cls == "hunk" and arch["files"][f].get("t") == "hunk":
+                # a hunk that still decodes but whose addresses reach past the end of their blocks
+                blen = {p2.split("/")[-1]: len(v2.get("hex", "")) // 2 for p2, v2 in arch["files"].items() if v2.get("t") == "block"}
+                ents = arch["files"][f]["v"]
+                cands = [(i, j) for i, e in enumerate(ents) for j, a in enumerate(e.get("addrs") or []) if a.get("hash") in blen]
+                for (i, j) in cands[:3]:
+                    a = ents[i]["addrs"][j]
+                    n = blen[a["hash"]]
+                    for var, (st, ln) in enumerate([(a.get("start", 0) + n, a["len"]), (a.get("start", 0) + 1, a["len"]), (a.get("start", 0), n + 5),
+                                                    (1 << 40, a["len"])]):
+                        plans.append(("hunkaddr", (i, j, st, ln), var))
             if cls == "tail" and arch["files"][f].get("t") == "json":
                 # a tail that still decodes but states another number of hunks than the band holds
                 n = arch["files"][f]["v"].get("index_hunk_count")
@@ -131,7 +142,12 @@ def build_cases(ctx, nbases, flips_per_file, kinds=DAMAGE_KINDS):
                 if kind == "badversion":
                     dmg = {"op": "damage", "file": f, "kind": "write",
                            "hex": b'{"start_time":1700000000,"band_format_version":"0.6.x","format_flags":[]}\n'.hex()}
-                if kind == "tailcount":
+                if kind == "hunkaddr":
+                    i_, j_, st_, ln_ = pos
+                    v = json.loads(json.dumps(arch["files"][f]["v"]))
+                    v[i_]["addrs"][j_] = dict(v[i_]["addrs"][j_], start=st_, len=ln_)
+                    dmg = {"op": "damage", "file": f, "kind": "write_hunk", "json": v}
+                elif kind == "tailcount":
                     v = dict(arch["files"][f]["v"], index_hunk_count=pos)
                     dmg = {"op": "damage", "file": f, "kind": "write", "hex": (json.dumps(v, separators=(",", ":")) + "\n").encode().hex()}
                 elif pos is not None:
